@@ -4,6 +4,7 @@ import EinxModel.Driver.Update
 import EinxModel.Driver.Notation
 import EinxModel.Driver.Solve
 import EinxModel.Driver.Cse
+import EinxModel.Driver.CseTrees
 import EinxModel.Driver.Cache
 import EinxModel.Driver.Concurrent
 import EinxModel.Driver.IR
@@ -29,6 +30,7 @@ def dispatch (j : Json) : R Json := do
   | "cache-table" | "freeze" | "pyeq" | "pyhash" | "memo" | "stack" => Einx.Driver.Cache.handle j
   | "solve" | "checksat" | "checkaxes" => Einx.Driver.Solve.handle j
   | "value_range" => Einx.Driver.Cse.handle j
+  | "cse_trees" | "cse_check" | "cse_enum" => Einx.Driver.CseTrees.handle j
   | "ir_run" | "validate" | "denote" | "norm_arith" => Einx.Driver.IR.handle j
   | "join_exprs" | "cse_replace" | "implicit_output" => Einx.Driver.Order.handle j
   | "adapt_check" | "split_kwargs" | "expr_to_axis" | "elementwise_shape" => Einx.Driver.Adapt.handle j
